@@ -1288,6 +1288,21 @@ func candidateRIB(a *aftpb.Afts) (nr *aft.RIB, err error) {
 	return nr, nil
 }
 
+// validKey checks the candidate RIB kr, which holds nothing but the key of an entry
+// that is to be deleted, against the schema. The key of a DELETE is untrusted input
+// just as the payload of an ADD is: a syntactically invalid prefix or an out-of-range
+// label names no entry that could ever have been installed, so the operation is
+// rejected rather than acknowledged.
+func validKey(kr *aft.RIB) error {
+	if err := kr.GetAfts().Validate(&ytypes.LeafrefOptions{
+		IgnoreMissingData: true,
+		Log:               false,
+	}); err != nil {
+		return fmt.Errorf("invalid key provided, %v", err)
+	}
+	return nil
+}
+
 // AddIPv4 adds the IPv4 entry described by e to the RIB. If the explicitReplace
 // argument is set to true, the entry is checked for existence before it is replaced
 // otherwise, replaces are implicit. It returns a bool that indicates whether the
@@ -1410,6 +1425,9 @@ func (r *RIBHolder) DeleteIPv4(e *aftpb.Afts_Ipv4EntryKey) (bool, *aft.Afts_Ipv4
 
 	rr := &aft.RIB{}
 	rr.GetOrCreateAfts().GetOrCreateIpv4Entry(e.GetPrefix())
+	if err := validKey(rr); err != nil {
+		return false, nil, err
+	}
 	if r.checkFn != nil {
 		ok, err := r.checkFn(constants.Delete, rr)
 		switch {
@@ -1557,6 +1575,9 @@ func (r *RIBHolder) DeleteIPv6(e *aftpb.Afts_Ipv6EntryKey) (bool, *aft.Afts_Ipv6
 
 	rr := &aft.RIB{}
 	rr.GetOrCreateAfts().GetOrCreateIpv6Entry(e.GetPrefix())
+	if err := validKey(rr); err != nil {
+		return false, nil, err
+	}
 	if r.checkFn != nil {
 		ok, err := r.checkFn(constants.Delete, rr)
 		switch {
@@ -1739,6 +1760,9 @@ func (r *RIBHolder) DeleteMPLS(e *aftpb.Afts_LabelEntryKey) (bool, *aft.Afts_Lab
 
 	rr := &aft.RIB{}
 	rr.GetOrCreateAfts().GetOrCreateLabelEntry(aft.UnionUint32(lbl))
+	if err := validKey(rr); err != nil {
+		return false, nil, err
+	}
 
 	if r.checkFn != nil {
 		ok, err := r.checkFn(constants.Delete, rr)
